@@ -47,7 +47,9 @@ ANNOS = [None, None, None, "int", "str", "'Base2'", "float", None, None,
 STMTS = ["CONST = 1  # c", "X, Y = 1, 2", "if len('ab') == 2:\n    FLAG = True\nelse:\n    FLAG = False", "try:\n    import json as _j\nexcept ImportError:\n    _j = None",
          "LST = [\n    1,\n    2,  # two\n]", "a = 1; b = 2",
          # multi-line string literals with whitespace-only lines, trailing blanks and tabs (their VALUE is part of the program)
-         'TEXT = """\n  top\n    \n  bottom  \n\t\n"""', 'TEXT2 = """first\n \n\tsecond"""  # text']
+         'TEXT = """\n  top\n    \n  bottom  \n\t\n"""', 'TEXT2 = """first\n \n\tsecond"""  # text',
+         # the program's OWN TypedDict class (not one a stub generates), used when the module is imported
+         "class Layout(__import__('typing').TypedDict):\n    x: int\nDEFAULT_LAYOUT = Layout(x=1)"]
 COMMENTS = ["# a comment", "# another: with punctuation (and parens)", "#!not-a-shebang"]
 
 
